@@ -44,6 +44,13 @@ CHECKS = {
                      'evaluation, and the closure must end conflict-free in OPERATION (USER: CONCILIATION while a duplicate exists) '
                      'with the placement the strategy prescribes',
                 note='copies at least two tick rounds apart; final placement not judged when an election aborted the jobs'),
+    'C06': dict(engine='E1-cluster', category='model_checking', technique=E2 + '; ' + E1,
+                ref='DESIGN.md section 4, C06',
+                text='the real RunningFailureHandler is explored as a product with the precedence lattice over every sequence of '
+                     'add_job / add_default_job / trigger_jobs / abort with busy / idle and stopped / running applications; end to '
+                     'end, the loss of a non-Master, of the Master, process crashes and a loss during a start sequence are explored: '
+                     'only the Master acts, nothing is done twice, and the closure ends with the placement of the strategy',
+                note='handler: 2 applications x 2 processes, depth 4 (quick) / 6; end to end: N=3, one application of two programs'),
     'C07': dict(engine='E1-cluster', category='model_checking', technique=E1, ref='DESIGN.md section 4, C07',
                 text='every schedule of ticks, deliveries, crashes, restarts (also quicker than detection), isolations, '
                      'rejoins and directed stalls within the bounds is executed on the real cores; a monitor per (observer, '
